@@ -359,3 +359,101 @@ def split_cases(tokens, start='C09_START'):
 def squash(tokens):
     """comparison that ignores token boundaries outside literals (c2m -E prints adjacent tokens unspaced)"""
     return ''.join(tokens)
+
+
+# ------------------------------------------------------------------ encoding for the PpExpandFn model
+# c2mir's token stream of a text: pp-tokens plus one ' ' or '\n' token per run of white space.
+_LEX = re.compile(r'(?P<ws>\s+)|' + _TOK.pattern, re.X)
+
+
+def lex_c2m(text):
+    """[(kind, spelling)] with kind in i n p s c _ / ; None if some character is not lexed"""
+    out, pos = [], 0
+    for m in _LEX.finditer(text):
+        if m.start() != pos:
+            return None
+        pos = m.end()
+        if m.group('ws') is not None:
+            out.append(('/' if '\n' in m.group('ws') else '_', ''))
+        elif m.group('str') is not None:
+            out.append(('s', m.group(0)))
+        elif m.group('chr') is not None:
+            out.append(('c', m.group(0)))
+        elif m.group('num') is not None:
+            out.append(('n', m.group(0)))
+        elif m.group('id') is not None:
+            out.append(('i', m.group(0)))
+        else:
+            out.append(('p', m.group(0)))
+    return out if pos == len(text) else None
+
+
+def _hex(s):
+    return s.encode('latin-1').hex()
+
+
+def _word(t):
+    k, s = t
+    return k if k in '_/R' else k + _hex(s)
+
+
+_DEFINE = re.compile(r'^#define ([A-Za-z_]\w*)(\(([^)]*)\))?(.*)$')
+_RESERVED = re.compile(r'^(__\w+__|defined|_Pragma)$')
+
+
+def model_query(text, quirks='00'):
+    """the query line for ocaml/driver_c09fn.ml, or None when the text is outside the shape the model covers:
+    `#define` lines (each name once) followed by text lines without directives"""
+    lines = text.split('\n')
+    k = 0
+    secs, names = [], set()
+    while k < len(lines) and lines[k].startswith('#define '):
+        m = _DEFINE.match(lines[k])
+        if not m:
+            return None
+        name, par, plist, body = m.group(1), m.group(2), m.group(3), m.group(4)
+        if name in names or _RESERVED.match(name):
+            return None
+        names.add(name)
+        toks = lex_c2m(body)
+        if toks is None:
+            return None
+        while toks and toks[0][0] in '_/':
+            toks = toks[1:]
+        while toks and toks[-1][0] in '_/':
+            toks = toks[:-1]
+        toks = [('R', '') if t == ('p', '##') else t for t in toks]
+        if toks and (toks[0][0] == 'R' or toks[-1][0] == 'R'):
+            return None
+        if par is None:
+            secs.append('D %s O %s' % (_hex(name), ' '.join(_word(t) for t in toks)))
+        else:
+            ps = [p.strip() for p in plist.split(',')] if plist.strip() else []
+            if any(not re.match(r'^([A-Za-z_]\w*|\.\.\.)$', p) for p in ps) or '...' in ps[:-1]:
+                return None
+            secs.append('D %s F %s | %s' % (_hex(name), ' '.join(_hex(p) for p in ps), ' '.join(_word(t) for t in toks)))
+        k += 1
+    use = '\n'.join(lines[k:])
+    if re.search(r'^\s*#', use, re.M):
+        return None
+    toks = lex_c2m(use)
+    if toks is None or any(k == 'i' and _RESERVED.match(s) for k, s in toks):
+        return None
+    secs.append('U ' + ' '.join(_word(t) for t in toks))
+    return 'F q%s %s' % (quirks, ' ; '.join(secs))
+
+
+def model_tokens(answer):
+    """spellings of the non-white-space tokens of a driver answer `out ...`; None for err/fuel"""
+    w = answer.split()
+    if not w or w[0] != 'out':
+        return None
+    res = []
+    for t in w[1:]:
+        if t in '_/':
+            continue
+        if t in ('R', 'PLM', 'BOA', 'EOA', 'EOR'):
+            res.append('<%s>' % t)
+        else:
+            res.append(bytes.fromhex(t[1:]).decode('latin-1'))
+    return res
